@@ -270,6 +270,9 @@ static void g_closed_files_add(FILE* f) { g_closed_files.insert(f); }
 static bool g_fd_track = false;
 static std::set<FILE*> g_live_files;
 static std::set<int> g_tracked_fds;
+// fault: close() calls (by ordinal, counted while tracking) that release the descriptor but report EINTR / EIO, as Linux does
+static std::set<uint64_t> g_close_fail;
+static uint64_t g_close_calls = 0;
 
 static void forget_fd_stream(int fd);
 static int count_open_fds() {
@@ -321,6 +324,11 @@ int close(int fd) {
   int r = real(fd);
   if (g_fd_track) {
     int e = errno;
+    if (g_close_fail.count(g_close_calls++) && r == 0) {
+      r = -1;
+      e = (g_close_calls & 1) ? EINTR : EIO;
+      W.counters["close_reported_failure"]++;
+    }
     W.event("close fd=%d r=%d", fd, r);
     W.counters["close"]++;
     if (r != 0 && e == EBADF) {
@@ -1571,6 +1579,8 @@ static void run_plan(const js::Value& plan) {
   }
   capture_install(ctx, env);
   g_base_fds = count_open_fds();
+  g_close_fail.clear(); g_close_calls = 0;
+  if (knobs && knobs->get("close_fail")) for (auto& e : knobs->get("close_fail")->a) g_close_fail.insert((uint64_t)e->i);
   g_fd_track = true;
   if (knobs && !knobs->getb("simplify", true)) sexp_global(ctx, SEXP_G_OPTIMIZATIONS) = SEXP_NULL;
   if (knobs && knobs->getb("no_tail_calls", false)) sexp_global(ctx, SEXP_G_NO_TAIL_CALLS_P) = SEXP_TRUE;
@@ -1654,6 +1664,7 @@ struct C13Task {
   char* obuf = nullptr; size_t olen = 0, oconsumed = 0; FILE* of = nullptr; sexp oport = nullptr;
   uint64_t allocs = 0, gcs = 0, ticks = 0;
   int yield_every = 1;
+  bool std_ports = false;   // boot the way the documentation's embedding example does: sexp_load_standard_ports(..., no_close = 1)
   uint64_t gc_p1024 = 0; Rng rng{1};
   bool in_gc = false;
   sexp_proc1 real_sched = nullptr; sexp real_sched_op = nullptr;
@@ -1855,6 +1866,7 @@ static void* c13_task_main(void* arg) {
         res = sexp_env_ref(ctx, sexp_global(ctx, SEXP_G_META_ENV), tmp, SEXP_VOID);
         tmp = sexp_intern(ctx, "import", -1);
         sexp_env_define(ctx, e, tmp, res);
+        if (t->std_ports) sexp_load_standard_ports(ctx, e, stdin, stdout, stderr, 1);
         t->of = open_memstream(&t->obuf, &t->olen);
         res = sexp_make_env(ctx);
         sexp_env_parent(res) = e;
@@ -1904,6 +1916,13 @@ static void* c13_task_main(void* arg) {
     sexp_destroy_context(ctx);
     t->in_gc = false;
     t->ctx = nullptr;
+    // the host's own streams were lent to the context with no_close = 1: whatever the context did with them, they are still the host's
+    for (int fd = 0; fd <= 2; ++fd)
+      if (fcntl(fd, F_GETFD) == -1) {
+        char msg[160];
+        snprintf(msg, sizeof msg, "file descriptor %d of the host process is closed after task %d destroyed its context", fd, t->id);
+        W.violate("embed:host-stream-closed", msg);
+      }
   }
   t->done = true;
   c13_scan_statics(t->id);
@@ -1935,6 +1954,7 @@ static void run_c13(const js::Value& plan) {
     t->heap = tp->geti("heap", 0);
     t->heap_max = tp->geti("heap_max", 0);
     t->yield_every = (int)tp->geti("yield_every", 50);
+    t->std_ports = tp->getb("std_ports", false);
     t->gc_p1024 = tp->geti("gc_p1024", 0);
     t->rng = Rng(tp->geti("gc_seed", 1));
     const js::Value* im = tp->get("imports");
